@@ -205,6 +205,7 @@ type Peer struct {
 	// answered: it gets the datagram and how many transmissions with that sequence number have been seen (1 = first)
 	// and returns the answers to send (possibly none).
 	Policy  func(d Dgram, nth int) []Answer
+	ansLat  map[uint32]time.Duration
 	ReqSeen []Dgram        // every agent-originated request seen while Policy is set (with arrival time)
 	seqCnt  map[uint32]int // transmissions per sequence number
 }
@@ -308,6 +309,23 @@ func (p *Peer) reader() {
 
 					seq := uint32(int(d.Seq)+a.SeqDiff) & 0xFFFFFF
 
+					// how long an undelayed correct answer took to leave, counted from the arrival of the request at the socket
+					if a.Delay == 0 && a.SeqDiff == 0 {
+						defer func() {
+							lat := time.Since(d.At)
+
+							p.mu.Lock()
+							if p.ansLat == nil {
+								p.ansLat = map[uint32]time.Duration{}
+							}
+
+							if lat > p.ansLat[d.Seq] {
+								p.ansLat[d.Seq] = lat
+							}
+							p.mu.Unlock()
+						}()
+					}
+
 					if d.TypeNum == int(message.MsgTypeHeartbeatRequest) {
 						_ = p.Send(message.NewHeartbeatResponse(seq, ie.NewRecoveryTimeStamp(p.TS)))
 						return
@@ -355,6 +373,15 @@ func (p *Peer) Close() {
 	p.conn.Close()
 }
 
+// AnswerLatency returns the longest time an undelayed answer to the request with this sequence number took to leave
+// the scripted peer (from the kernel's receive time stamp of the request to the end of the send call).
+func (p *Peer) AnswerLatency(seq uint32) time.Duration {
+	p.mu.Lock()
+	defer p.mu.Unlock()
+
+	return p.ansLat[seq]
+}
+
 // SetPolicy installs (or removes, with nil) the answer policy for agent-originated requests.
 func (p *Peer) SetPolicy(f func(d Dgram, nth int) []Answer) {
 	p.mu.Lock()
@@ -366,7 +393,7 @@ func (p *Peer) SetPolicy(f func(d Dgram, nth int) []Answer) {
 // sequence numbers again).
 func (p *Peer) ResetRequests() {
 	p.mu.Lock()
-	p.ReqSeen, p.seqCnt = nil, nil
+	p.ReqSeen, p.seqCnt, p.ansLat = nil, nil, nil
 	p.mu.Unlock()
 }
 
